@@ -484,3 +484,7 @@ case("c18-twin-iterative-ladder", ["C18", "C06"], SECPF, _REC, _ITER, expect="si
 case("c18-iterative-ladder-negative-unguarded", ["C18"], SECPF, _REC, _ITER, rule="C18.R2",
      more=[(SECPF, "    if n < 0 or n >= N:", "    if n >= N:", 1)])
 case("c18-iterative-ladder-wrong-start", ["C18"], SECPF, _REC, _ITER.replace("n.bit_length() - 2", "n.bit_length() - 1"), rule="C18.R2")
+
+for _t in ("rename-locals", "flip-comparisons", "square-spelling", "if-else-returns"):
+    CASES.append({"id": f"all-twin-{_t}", "props": [f"C{i:02d}" for i in range(1, 21)], "edits": [], "expect": "silent",
+                  "rule": None, "transform": _t})
